@@ -26,7 +26,7 @@ case of a choice stays; equal instances of a key-less list / state leaf-list are
 appended.
 
 Not modelled: the `lyds` pool of `LYD_MERGE_DESTRUCT` — the model of the consuming merge links the moved node with the
-same `insertNode` (what the C does when the pool is empty; finding F70 is the case where a filled pool changes the
+same `insertNode` (what the C does when the pool is empty; finding F160 is the case where a filled pool changes the
 result).  Model fragment (assumption): no two equal instances of a keyed list / configuration leaf-list and at most one
 instance of a leaf / container among siblings (libyang then hands out *further* instances through the same cache).
 
